@@ -50,6 +50,7 @@ typedef struct
 
 } Skinny128CTRVec256Ctx_t;
 
+static void skinny128_ctr_vec256_reset_keystream(Skinny128CTRVec256Ctx_t *ctx);
 static int skinny128_ctr_vec256_set_counter
     (Skinny128CTR_t *ctr, const void *counter, unsigned size);
 
@@ -95,7 +96,7 @@ static int skinny128_ctr_vec256_set_key
         return 0;
 
     /* Reset the keystream */
-    ctx->offset = SKINNY128_CTR_BLOCK_SIZE;
+    skinny128_ctr_vec256_reset_keystream(ctx);
     return 1;
 }
 
@@ -116,7 +117,7 @@ static int skinny128_ctr_vec256_set_tweaked_key
         return 0;
 
     /* Reset the keystream */
-    ctx->offset = SKINNY128_CTR_BLOCK_SIZE;
+    skinny128_ctr_vec256_reset_keystream(ctx);
     return 1;
 }
 
@@ -135,7 +136,7 @@ static int skinny128_ctr_vec256_set_tweak
         return 0;
 
     /* Reset the keystream */
-    ctx->offset = SKINNY128_CTR_BLOCK_SIZE;
+    skinny128_ctr_vec256_reset_keystream(ctx);
     return 1;
 }
 
@@ -157,6 +158,48 @@ STATIC_INLINE void skinny128_ctr_increment
         inc += ptr[0];
         ptr[0] = (uint8_t)inc;
         inc >>= 8;
+    }
+}
+
+/* Decrement a specific column in an array of row vectors */
+STATIC_INLINE void skinny128_ctr_decrement
+    (SkinnyVector8x32_t *counter, unsigned column, unsigned dec)
+{
+    uint8_t *ctr = ((uint8_t *)counter) + column * 4;
+    uint8_t *ptr;
+    unsigned index;
+    for (index = 16; index > 0; ) {
+        --index;
+        ptr = ctr + (index & 0x0C) * 8;
+#if SKINNY_LITTLE_ENDIAN
+        ptr += index & 0x03;
+#else
+        ptr += 3 - (index & 0x03);
+#endif
+        dec = ptr[0] - dec;
+        ptr[0] = (uint8_t)dec;
+        dec = (dec >> 8) & 1;
+    }
+}
+
+/* Resets the keystream after a key or tweak change.  Blocks of keystream
+   that were generated ahead of time but not used are discarded and their
+   counter values are used again, so that the counter sequence does not
+   depend upon how many blocks this back end generates in one go */
+static void skinny128_ctr_vec256_reset_keystream(Skinny128CTRVec256Ctx_t *ctx)
+{
+    if (ctx->offset < SKINNY128_CTR_BLOCK_SIZE) {
+        unsigned unused =
+            (SKINNY128_CTR_BLOCK_SIZE - ctx->offset) / SKINNY128_BLOCK_SIZE;
+        skinny128_ctr_decrement(ctx->counter, 0, unused);
+        skinny128_ctr_decrement(ctx->counter, 1, unused);
+        skinny128_ctr_decrement(ctx->counter, 2, unused);
+        skinny128_ctr_decrement(ctx->counter, 3, unused);
+        skinny128_ctr_decrement(ctx->counter, 4, unused);
+        skinny128_ctr_decrement(ctx->counter, 5, unused);
+        skinny128_ctr_decrement(ctx->counter, 6, unused);
+        skinny128_ctr_decrement(ctx->counter, 7, unused);
+        ctx->offset = SKINNY128_CTR_BLOCK_SIZE;
     }
 }
 
